@@ -12,7 +12,7 @@ from vcheck.oracle import bits, intervals, names, reader
 PROPERTY = "C01"
 LEVEL = "exploration"
 BUDGET_S = {"quick": 45, "thorough": 600}
-FLOOR = {"quick": 4000, "thorough": 40000}
+FLOOR = {"quick": 2500, "thorough": 40000}
 MUST_REACH = ("ace_constructed", "rendered_line_reread", "standard_aces")
 RULE = ("grammar-generated extended ACE texts in every accepted spelling (names/numbers, host vs /32 vs zero wildcard, "
         "any vs all-ones wildcard vs /0, dirty bases, non-contiguous masks k<=4, 5 port operators incl. empty "
